@@ -133,6 +133,24 @@ package eval
 //@   assert before "return false" closed: forall x types.EntityUID, y types.EntityUID :: { edge(env, x, y) } (S[x] && edge(env, x, y)) ==> S[y]
 //@   assert before "return false" unreachable: S[entity] && (forall t types.EntityUID :: { inTarget(parents, t) } inTarget(parents, t) ==> (!S[t] && !reach(env, entity, t)))
 
+// ------------------------------------------------ sets, records, entity data
+//@ spec func setHas(s types.Set, v types.Value) bool = s.Contains#0(v)
+//@ spec func setLen(s types.Set) int = s.Len#0()
+//@ spec func recHas(r types.Record, k types.String) bool = r.Get#1(k)
+//@ spec func recGet(r types.Record, k types.String) types.Value = r.Get#0(k)
+//@ spec func entOf(env Env, uid types.EntityUID) types.Entity = env.Entities.Get#0(uid)
+// The members a set enumerates (Set.All) are its stored values; membership
+// (Contains) is "Equal to a stored value". Assumed here (types.Set is opaque
+// in this package); see C11 for the set representation.
+//@ spec func iter_Set_All(s types.Set, v types.Value) bool
+//@ axiom set_members: forall s types.Set, x types.Value :: { setHas(s, x) } setHas(s, x) == (exists v types.Value :: iter_Set_All(s, v) && valEq(x, v))
+//@ axiom set_stored_member: forall s types.Set, v types.Value :: { iter_Set_All(s, v) } iter_Set_All(s, v) ==> setHas(s, v)
+// The zero record has no attributes.
+//@ axiom zero_record: forall k types.String :: { recHas(types.Record(nil), k) } !recHas(types.Record(nil), k)
+
+// Evaluation never writes the evaluator tree, the environment or the values (C19).
+//@ frameclean C19 (BoolEvaler)Eval PolicyToNode PartialPolicy
+
 // ---- generated by /verif/tools/gen_eval_contracts.py (regular part) ----
 
 // The evaluator interface: Eval is a deterministic function of the node and
@@ -537,6 +555,96 @@ package eval
 //@   ensures okEntity(n.lhs, env) && vEntity(n.lhs, env).Type != n.is ==> err == nil && v == types.Boolean(false)
 //@   ensures okEntity(n.lhs, env) && vEntity(n.lhs, env).Type == n.is && evE(n.rhs, env) != nil ==> err == evE(n.rhs, env)
 //@   ensures okEntity(n.lhs, env) && vEntity(n.lhs, env).Type == n.is && evE(n.rhs, env) == nil ==> v == doInEval#0(env, vEntity(n.lhs, env), evV(n.rhs, env)) && err == doInEval#1(env, vEntity(n.lhs, env), evV(n.rhs, env))
+
+// ---- sets ----
+//@ func (containsEval) Eval
+//@   props C01
+//@   results v, err
+//@   ensures !okSet(n.lhs, env) ==> failSet(n.lhs, env, err)
+//@   ensures okSet(n.lhs, env) && evE(n.rhs, env) != nil ==> err == evE(n.rhs, env)
+//@   ensures okSet(n.lhs, env) && evE(n.rhs, env) == nil ==> err == nil && v == types.Boolean(setHas(vSet(n.lhs, env), evV(n.rhs, env)))
+
+//@ func (containsAllEval) Eval
+//@   props C01
+//@   results v, err
+//@   loop 1
+//@     invariant forall x types.Value :: $done[x] ==> setHas(lhs, x)
+//@   ensures !okSet(n.lhs, env) ==> failSet(n.lhs, env, err)
+//@   ensures okSet(n.lhs, env) && !okSet(n.rhs, env) ==> failSet(n.rhs, env, err)
+//@   ensures okSet(n.lhs, env) && okSet(n.rhs, env) ==> (err == nil && v == types.Boolean(forall x types.Value :: iter_Set_All(vSet(n.rhs, env), x) ==> setHas(vSet(n.lhs, env), x)))
+
+//@ func (containsAnyEval) Eval
+//@   props C01
+//@   results v, err
+//@   loop 1
+//@     invariant forall x types.Value :: $done[x] ==> !setHas(lhs, x)
+//@   ensures !okSet(n.lhs, env) ==> failSet(n.lhs, env, err)
+//@   ensures okSet(n.lhs, env) && !okSet(n.rhs, env) ==> failSet(n.rhs, env, err)
+//@   ensures okSet(n.lhs, env) && okSet(n.rhs, env) ==> (err == nil && v == types.Boolean(exists x types.Value :: iter_Set_All(vSet(n.rhs, env), x) && setHas(vSet(n.lhs, env), x)))
+
+//@ func (isEmptyEval) Eval
+//@   props C01
+//@   results v, err
+//@   ensures !okSet(n.lhs, env) ==> failSet(n.lhs, env, err)
+//@   ensures okSet(n.lhs, env) ==> (err == nil && v == types.Boolean(setLen(vSet(n.lhs, env)) == 0))
+
+// ---- like, ip ranges ----
+//@ func (likeEval) Eval
+//@   props C01
+//@   results v, err
+//@   ensures !okString(l.lhs, env) ==> failString(l.lhs, env, err)
+//@   ensures okString(l.lhs, env) ==> (err == nil && v == types.Boolean(l.pattern.Match#0(vString(l.lhs, env))))
+
+//@ func (ipIsInRangeEval) Eval
+//@   props C01
+//@   results v, err
+//@   ensures !okIP(n.lhs, env) ==> failIP(n.lhs, env, err)
+//@   ensures okIP(n.lhs, env) && !okIP(n.rhs, env) ==> failIP(n.rhs, env, err)
+//@   ensures okIP(n.lhs, env) && okIP(n.rhs, env) ==> (err == nil && v == types.Boolean(vIP(n.rhs, env).Contains#0(vIP(n.lhs, env))))
+
+//@ func (ipTestEval) Eval
+//@   props C01
+//@   results v, err
+//@   ensures !okIP(n.object, env) ==> failIP(n.object, env, err)
+//@   ensures okIP(n.object, env) ==> (err == nil && v is types.Boolean)
+
+// ---- attributes and tags ----
+//@ func (attributeAccessEval) Eval
+//@   props C01
+//@   results v, err
+//@   ensures evE(n.object, env) != nil ==> err == evE(n.object, env)
+//@   ensures (evE(n.object, env) == nil && evV(n.object, env) is types.EntityUID && evV(n.object, env).(types.EntityUID) == types.EntityUID(nil)) ==> err != nil && errIs(err, errUnspecifiedEntity)
+//@   ensures (evE(n.object, env) == nil && evV(n.object, env) is types.EntityUID && evV(n.object, env).(types.EntityUID) != types.EntityUID(nil) && !present(env, evV(n.object, env).(types.EntityUID))) ==> err != nil && errIs(err, errEntityNotExist)
+//@   ensures (evE(n.object, env) == nil && evV(n.object, env) is types.EntityUID && evV(n.object, env).(types.EntityUID) != types.EntityUID(nil) && present(env, evV(n.object, env).(types.EntityUID)) && !recHas(entOf(env, evV(n.object, env).(types.EntityUID)).Attributes, n.attribute)) ==> err != nil && errIs(err, errAttributeAccess)
+//@   ensures (evE(n.object, env) == nil && evV(n.object, env) is types.EntityUID && evV(n.object, env).(types.EntityUID) != types.EntityUID(nil) && present(env, evV(n.object, env).(types.EntityUID)) && recHas(entOf(env, evV(n.object, env).(types.EntityUID)).Attributes, n.attribute)) ==> err == nil && v == recGet(entOf(env, evV(n.object, env).(types.EntityUID)).Attributes, n.attribute)
+//@   ensures (evE(n.object, env) == nil && evV(n.object, env) is types.Record && !recHas(evV(n.object, env).(types.Record), n.attribute)) ==> err != nil && errIs(err, errAttributeAccess)
+//@   ensures (evE(n.object, env) == nil && evV(n.object, env) is types.Record && recHas(evV(n.object, env).(types.Record), n.attribute)) ==> err == nil && v == recGet(evV(n.object, env).(types.Record), n.attribute)
+//@   ensures (evE(n.object, env) == nil && !(evV(n.object, env) is types.EntityUID) && !(evV(n.object, env) is types.Record)) ==> err != nil && errIs(err, ErrType)
+
+//@ func (hasEval) Eval
+//@   props C01
+//@   results v, err
+//@   ensures evE(n.object, env) != nil ==> err == evE(n.object, env)
+//@   ensures (evE(n.object, env) == nil && evV(n.object, env) is types.EntityUID) ==> err == nil && v == types.Boolean(present(env, evV(n.object, env).(types.EntityUID)) && recHas(entOf(env, evV(n.object, env).(types.EntityUID)).Attributes, n.attribute))
+//@   ensures (evE(n.object, env) == nil && evV(n.object, env) is types.Record) ==> err == nil && v == types.Boolean(recHas(evV(n.object, env).(types.Record), n.attribute))
+//@   ensures (evE(n.object, env) == nil && !(evV(n.object, env) is types.EntityUID) && !(evV(n.object, env) is types.Record)) ==> err != nil && errIs(err, ErrType)
+
+//@ func (getTagEval) Eval
+//@   props C01
+//@   results v, err
+//@   ensures !okEntity(n.lhs, env) ==> failEntity(n.lhs, env, err)
+//@   ensures okEntity(n.lhs, env) && vEntity(n.lhs, env) == types.EntityUID(nil) ==> err != nil && errIs(err, errUnspecifiedEntity)
+//@   ensures okEntity(n.lhs, env) && vEntity(n.lhs, env) != types.EntityUID(nil) && !okString(n.rhs, env) ==> failString(n.rhs, env, err)
+//@   ensures okEntity(n.lhs, env) && vEntity(n.lhs, env) != types.EntityUID(nil) && okString(n.rhs, env) && !present(env, vEntity(n.lhs, env)) ==> err != nil && errIs(err, errEntityNotExist)
+//@   ensures okEntity(n.lhs, env) && vEntity(n.lhs, env) != types.EntityUID(nil) && okString(n.rhs, env) && present(env, vEntity(n.lhs, env)) && !recHas(entOf(env, vEntity(n.lhs, env)).Tags, vString(n.rhs, env)) ==> err != nil && errIs(err, errTagAccess)
+//@   ensures okEntity(n.lhs, env) && vEntity(n.lhs, env) != types.EntityUID(nil) && okString(n.rhs, env) && present(env, vEntity(n.lhs, env)) && recHas(entOf(env, vEntity(n.lhs, env)).Tags, vString(n.rhs, env)) ==> err == nil && v == recGet(entOf(env, vEntity(n.lhs, env)).Tags, vString(n.rhs, env))
+
+//@ func (hasTagEval) Eval
+//@   props C01
+//@   results v, err
+//@   ensures !okEntity(n.lhs, env) ==> failEntity(n.lhs, env, err)
+//@   ensures okEntity(n.lhs, env) && !okString(n.rhs, env) ==> failString(n.rhs, env, err)
+//@   ensures okEntity(n.lhs, env) && okString(n.rhs, env) ==> (err == nil && v == types.Boolean(present(env, vEntity(n.lhs, env)) && recHas(entOf(env, vEntity(n.lhs, env)).Tags, vString(n.rhs, env))))
 
 // ---- variables ----
 //@ func (variableEval) Eval
